@@ -29,6 +29,9 @@ PROPS = {
                 "shard with rows was read back after a service run; distinct = digest of the case; states = distinct (policy class, boundary class, shard state, "
                 "alteration, expired) tuples judged at service runs.",
         "eval_extra": ["service_runs"],
+        "fault_stats": {"restarts": "store restart (clean or crash, down time up to 50 h = clock jump)", "kills_mark": "process kill between catalogue mark and engine delete",
+                        "kills_delete": "process kill between engine delete and catalogue prune", "writes_held": "write stalled inside a shard across a service run",
+                        "nodes_added": "membership change (data node joined)"},
         "probes": ["service run exactly at end+duration", "service run one nanosecond after end+duration", "service run one nanosecond before end+duration",
                    "expired shard was not loaded (lazy) when the service ran", "expired shard was unknown to the engine when the service ran",
                    "duration raised after expiry under the old duration, before the service ran", "duration lowered: shard expired under the new duration only",
